@@ -85,10 +85,9 @@ theorem step_stats (s : DState) (e : DEvent) (s' : DState) (o : Out) (h : step s
   · cases h
   · rename_i r hr
     have : (finishStep r.1 r.2.1 r.2.2.1 r.2.2.2).1 = r.1 := by unfold finishStep; split <;> rfl
-    simp only [Except.ok.injEq] at h
-    rw [h] at this
-    simp only at this
-    rw [this]
+    simp only [Except.ok.injEq, Prod.mk.injEq] at h
+    obtain ⟨h1, _⟩ := h
+    rw [← h1, this]
     exact stepCore_stats s e r hr
 
 end NextestModel.Dispatcher
